@@ -45,7 +45,7 @@ PROPS = {
                     "name; frames from the bus carry org.freedesktop.DBus; the monitor's copies are checked by body token; unique names are checked against every name ever issued in the process."),
         level_note="Permissive policy only; the name counter is not driven to wrap-around (hook H4 not built); trusts busmodel.cc/wire.cc. One open known finding (destination-less calls are answered without SENDER).",
         rule=("case = history decoded from fuzzer input. Non-trivial = >=2 registered clients and >=1 delivered message that carried a forged SENDER, unknown field or CONTAINER_INSTANCE; distinct = FNV-1a of the log with unique names renamed."),
-        phases=[P(kind="fuzz", bin="c03_sender", runs_quick=14000, runs_thorough=3000000, workers_quick=12, workers_thorough=16, max_len=1024, rss=4000, timeout=120, detect_leaks=0)],
+        phases=[P(kind="fuzz", bin="c03_sender", nopool_odd=True, runs_quick=14000, runs_thorough=3000000, workers_quick=12, workers_thorough=16, max_len=1024, rss=4000, timeout=120, detect_leaks=0)],
         floor_quick=800, floor_thorough=50000,
     ),
     "C04": P(
@@ -57,7 +57,7 @@ PROPS = {
                     "signals before its reply) and GetNameOwner/NameHasOwner/ListQueuedOwners/ListNames are compared with a model transcribed from the specification. Samples the space of histories."),
         level_note="Trusts engine/busmodel.cc (spec transcription) and wire.cc; the daemon runs in-process under the harness' main-loop pumping (single-threaded, like the real daemon); undefined flag bits carry no verdict.",
         rule=("case = operation history decoded from fuzzer input. Non-trivial = some name had >=2 queue entries during the history; distinct = FNV-1a of the operation log with unique names renamed by first appearance."),
-        phases=[P(kind="fuzz", bin="c04_names", runs_quick=12000, runs_thorough=2000000, workers_quick=12, workers_thorough=16, max_len=512, rss=4000, timeout=120, detect_leaks=0)],
+        phases=[P(kind="fuzz", bin="c04_names", nopool_odd=True, runs_quick=12000, runs_thorough=2000000, workers_quick=12, workers_thorough=16, max_len=512, rss=4000, timeout=120, detect_leaks=0)],
         floor_quick=600, floor_thorough=50000,
     ),
     "C05": P(
@@ -70,7 +70,7 @@ PROPS = {
                     "undeliverable calls must earn exactly one error with their serial; NoReply errors on callee disconnect are modelled; final registry state is checked."),
         level_note="The daemon is single-threaded: 'schedules' = order in which bytes of different clients become readable, explored through batches (<=4 ops, <=24 serialisations). Eavesdroppers' copies of bus-originated unicast frames and of undeliverable messages are [U] (optional). Trusts busmodel.cc, matchmodel.cc, wire.cc.",
         rule=("case = history decoded from fuzzer input. Non-trivial = some batch contained a send and an ownership change or close affecting its destination; distinct = FNV-1a of the log with unique names renamed."),
-        phases=[P(kind="fuzz", bin="c05_unicast", runs_quick=14000, runs_thorough=3000000, workers_quick=12, workers_thorough=16, max_len=1024, rss=4000, timeout=120, detect_leaks=0)],
+        phases=[P(kind="fuzz", bin="c05_unicast", nopool_odd=True, runs_quick=14000, runs_thorough=3000000, workers_quick=12, workers_thorough=16, max_len=1024, rss=4000, timeout=120, detect_leaks=0)],
         floor_quick=600, floor_thorough=50000,
     ),
     "C06": P(
@@ -84,7 +84,7 @@ PROPS = {
                     "receive rules both allow, AccessDenied for a denied method call, no ownership change for a denied RequestName."),
         level_note="A fixed scaffold at the end of the mandatory context keeps the harness' own driver calls and the bus' replies/signals permitted; at_console, SELinux/AppArmor, log= are out of scope; plain send_destination/receive_sender against a queued (non-primary) owner and requested-reply state as seen by eavesdroppers are [U]; fd-count attributes are generated but all probes carry 0 fds (C15 covers fds). Trusts policymodel.cc/busmodel.cc.",
         rule=("case = (policy, cast, probes) decoded from fuzzer input. Non-trivial = some probe for which at least one allow and one deny rule match (last-match-wins is decisive); distinct = FNV-1a of policy text + log with unique names renamed."),
-        phases=[P(kind="fuzz", bin="c06_policy", runs_quick=6000, runs_thorough=1500000, workers_quick=14, workers_thorough=16, max_len=1024, rss=4000, timeout=120, detect_leaks=0)],
+        phases=[P(kind="fuzz", bin="c06_policy", nopool_odd=True, runs_quick=6000, runs_thorough=1500000, workers_quick=14, workers_thorough=16, max_len=1024, rss=4000, timeout=120, detect_leaks=0)],
         floor_quick=600, floor_thorough=50000,
     ),
     "C07": P(
@@ -97,7 +97,7 @@ PROPS = {
                     "exact delivery set of every broadcast are compared with the model; the daemon runs under ASan/UBSan."),
         level_note="Trusts engine/matchmodel.cc; UNSPEC rule shapes (whitespace, empty segments, >16 pairs, destination= well-known name, two kinds of match on one argument, RemoveMatch of a rule naming a departed unique name) carry no verdict; unicast copies seen by eavesdrop='true' holders are ignored here (C05/C18).",
         rule=("case = history decoded from fuzzer input. Non-trivial = some broadcast was evaluated against >=2 rules on >=2 connections with >=1 match and >=1 non-match; distinct = FNV-1a of the log with unique names renamed."),
-        phases=[P(kind="fuzz", bin="c07_match", runs_quick=16000, runs_thorough=3000000, workers_quick=12, workers_thorough=16, max_len=1024, rss=4000, timeout=120, detect_leaks=0)],
+        phases=[P(kind="fuzz", bin="c07_match", nopool_odd=True, runs_quick=16000, runs_thorough=3000000, workers_quick=12, workers_thorough=16, max_len=1024, rss=4000, timeout=120, detect_leaks=0)],
         floor_quick=800, floor_thorough=100000,
     ),
     "C08": P(
@@ -114,7 +114,7 @@ PROPS = {
         level_note="Trusts the model in targets/c08_auth.cc (transcribed from the specification's authentication state diagrams) and engine/sha1.cc; cookie ageing (stale cookies) relies on the real clock and is not forced; hex case and ERROR texts are [U].",
         rule=("case = (server configuration, script, chunking) decoded from fuzzer input. Non-trivial = the script reaches WaitingForData or an OK (a well-formed AUTH for a permitted mechanism); distinct = FNV-1a of configuration + command-class sequence (phase i) / of the log (phase ii)."),
         phases=[P(kind="fuzz", bin="c08_auth", runs_quick=300000, runs_thorough=60000000, workers_quick=8, workers_thorough=16, max_len=512, rss=4000, timeout=60),
-                P(kind="fuzz", bin="c08_busauth", runs_quick=4000, runs_thorough=1000000, workers_quick=8, workers_thorough=16, max_len=512, rss=4000, timeout=120, detect_leaks=0)],
+                P(kind="fuzz", bin="c08_busauth", nopool_odd=True, runs_quick=4000, runs_thorough=1000000, workers_quick=8, workers_thorough=16, max_len=512, rss=4000, timeout=120, detect_leaks=0)],
         floor_quick=2000, floor_thorough=200000,
     ),
     "C09": P(
@@ -127,7 +127,7 @@ PROPS = {
                     "AccessDenied and reaches nobody (a bystander holding type= rules must see nothing); callee disconnect / expiry yield exactly one NoReply per open slot."),
         level_note="Policy is the fixed requested-replies-only configuration (C06 varies policies); time is the harness' virtual clock (hook H1), advanced in steps that never land exactly on the timeout; trusts busmodel.cc.",
         rule=("case = history decoded from fuzzer input. Non-trivial = >=1 illegitimate reply attempt after >=1 legitimate call; distinct = FNV-1a of the log with unique names renamed."),
-        phases=[P(kind="fuzz", bin="c09_replies", runs_quick=14000, runs_thorough=3000000, workers_quick=12, workers_thorough=16, max_len=1024, rss=4000, timeout=120, detect_leaks=0)],
+        phases=[P(kind="fuzz", bin="c09_replies", nopool_odd=True, runs_quick=14000, runs_thorough=3000000, workers_quick=12, workers_thorough=16, max_len=1024, rss=4000, timeout=120, detect_leaks=0)],
         floor_quick=600, floor_thorough=50000,
     ),
     "C18": P(
@@ -141,7 +141,7 @@ PROPS = {
                     "queries must not mention monitors; a monitor that sends is disconnected without effect on others; an invalid BecomeMonitor changes nothing."),
         level_note="Single operations only (no batches); filters use type/interface/member keys only (sender=/destination= in monitor filters are [U] with respect to ownership timing); the unprivileged-uid refusal of BecomeMonitor is exercised in C06's multi-user setup, not here; trusts busmodel.cc.",
         rule=("case = history decoded from fuzzer input. Non-trivial = a monitor is present and afterwards a refused/undeliverable message, an ownership change or a misbehaving monitor occurs; distinct = FNV-1a of the log with unique names renamed."),
-        phases=[P(kind="fuzz", bin="c18_monitor", runs_quick=12000, runs_thorough=3000000, workers_quick=12, workers_thorough=16, max_len=1024, rss=4000, timeout=120, detect_leaks=0)],
+        phases=[P(kind="fuzz", bin="c18_monitor", nopool_odd=True, runs_quick=12000, runs_thorough=3000000, workers_quick=12, workers_thorough=16, max_len=1024, rss=4000, timeout=120, detect_leaks=0)],
         floor_quick=300, floor_thorough=20000,
     ),
     "C10": P(
@@ -156,7 +156,7 @@ PROPS = {
                     "every frame the pair, the watcher and the monitor receive is valid and is from the bus, the pair, or the stamped copy of a valid hostile frame in order; unauthenticated connections are gone after the timeouts and a newcomer is then served; no block or descriptor is leaked at shutdown."),
         level_note="'Bounded time' is measured in main-loop iterations of the in-process bus under a virtual clock, not wall-clock latency of a separate daemon process; the bus and all clients share one thread, so kernel-level scheduling effects are not explored. Flood sizes stay below the outgoing-queue limits.",
         rule=("case = history decoded from fuzzer input. Non-trivial = an authenticated hostile wrote a stream the validator rejects and >=1 round trip ran afterwards; distinct = FNV-1a of the log with unique names renamed."),
-        phases=[P(kind="fuzz", bin="c10_hostile", runs_quick=9000, runs_thorough=2000000, workers_quick=12, workers_thorough=16, max_len=2048, rss=4000, timeout=120, detect_leaks=0)],
+        phases=[P(kind="fuzz", bin="c10_hostile", nopool_odd=True, runs_quick=9000, runs_thorough=2000000, workers_quick=12, workers_thorough=16, max_len=2048, rss=4000, timeout=120, detect_leaks=0)],
         floor_quick=400, floor_thorough=30000,
     ),
     "C11": P(
@@ -196,8 +196,22 @@ PROPS = {
                     "usable again, and an oversize message disconnects only its sender."),
         level_note="Single operations (no batches); auth_timeout is not exercised here (C10); the second uid is obtained with a short-lived setresuid child (root in the sandbox); re-requesting an already held name exactly at the name limit is [U] and not generated. The unique name counts as a name [D test/dbus-daemon.c].",
         rule=("case = (configuration, history) decoded from fuzzer input. Non-trivial = the history hits a limit, frees capacity and uses it again; distinct = FNV-1a of the log (which includes the limit values) with unique names renamed."),
-        phases=[P(kind="fuzz", bin="c13_limits", runs_quick=14000, runs_thorough=3000000, workers_quick=12, workers_thorough=16, max_len=1024, rss=4000, timeout=120, detect_leaks=0)],
+        phases=[P(kind="fuzz", bin="c13_limits", nopool_odd=True, runs_quick=14000, runs_thorough=3000000, workers_quick=12, workers_thorough=16, max_len=1024, rss=4000, timeout=120, detect_leaks=0)],
         floor_quick=200, floor_thorough=30000,
+    ),
+    "C14": P(
+        title="out-of-memory at any point leaves state unchanged and leaks nothing",
+        level="exploration",
+        technique="fault-injection enumeration inside libFuzzer-generated cases: for every generated (prior history, request) or (object, operation) the k-th allocation is made to fail for every k until the countdown no longer fires (libdbus' built-in failing allocator; hook H3 adds a second failure after a generated gap), and after each injected run the observable state is compared with a reference model or with the pre-operation snapshot, plus a block-count/descriptor leak check and a retry",
+        level_text=("Exploration. Bus part (c14_busoom): prior histories of 0-6 operations over three registered clients, an unregistered one and an observer (RequestName with all 8 flag combinations on two contended names, ReleaseName, AddMatch/RemoveMatch from a pool of 6 rules, "
+                    "method calls that leave reply slots, replies, broadcast and unicast signals, Hello); then one request of the same kinds handled while allocation k fails, for k = 0,1,2,... until the request completes without the failure firing (typically 40-120 runs per case). "
+                    "After each run: the frames at every client must be either the complete modelled effect or nothing but a NoMemory error to the caller; a NoMemory outcome is retried and must then produce the modelled effect; GetNameOwner/NameHasOwner/ListQueuedOwners/ListNames, "
+                    "four probe signals exercising every rule, and the NoReply errors and NameOwnerChanged signals produced by closing every client must agree with the model; no libdbus block or descriptor may remain at shutdown. "
+                    "Library part (c14_liboom): see DESIGN.md."),
+        level_note="Failures are injected into dbus_malloc/realloc and the memory pools (what libdbus' own countdown covers), not into the kernel or libc (socket buffers, getpwuid); pairs of failures are explored for a generated gap per case, not for all pairs.",
+        rule=("case = (history, request) decoded from fuzzer input, enumerated over every failing allocation index. Non-trivial = >=2 prior operations, the countdown fired in >=1 run and >=1 run ended in NoMemory; distinct = FNV-1a of the normalised history and request."),
+        phases=[P(kind="enum", bin="c14_busoom_enum", nopool_odd=True, quick=["420", "96"], thorough=["40000", "96"], shards_quick=14, shards_thorough=16)],
+        floor_quick=100, floor_thorough=5000,
     ),
     "C15": P(
         title="passed file descriptors arrive intact and are never leaked",
@@ -211,7 +225,7 @@ PROPS = {
                     "the number of open descriptors in the process equals baseline + 2 per live client + the model's surplus, returning to the baseline after all clients closed."),
         level_note="The bus runs in-process, so 'the bus' descriptor table' is /proc/self/fd minus what the harness owns (it closes every received descriptor at once); max_incoming_unix_fds flow control and queue-full paths are not driven; descriptors attached to a later byte of a message are not generated ([U]: the kernel may discard them).",
         rule=("case = history decoded from fuzzer input. Non-trivial = >=1 fd-carrying message that ended on a failure path (sender disconnected, denied, incapable recipient, undeliverable, pending too long, closed with surplus); distinct = FNV-1a of the log with unique names renamed."),
-        phases=[P(kind="fuzz", bin="c15_fds", runs_quick=12000, runs_thorough=2500000, workers_quick=12, workers_thorough=16, max_len=1024, rss=4000, timeout=120, detect_leaks=0)],
+        phases=[P(kind="fuzz", bin="c15_fds", nopool_odd=True, runs_quick=12000, runs_thorough=2500000, workers_quick=12, workers_thorough=16, max_len=1024, rss=4000, timeout=120, detect_leaks=0)],
         floor_quick=400, floor_thorough=30000,
     ),
     "C16": P(
